@@ -264,7 +264,15 @@ func (w *World) kbUpdate(o *Obs) {
 
 	// new remember cookie in the jar
 	if v, put := hasPut(o.CookEvents, "rm"); o.IsHTTP && put && v != "" && o.CookAfter["rm"] == v && kb.find("rm", v) == nil {
+		// whose cookie is it? a login that asked to be remembered issues it to
+		// the account that logged in; otherwise it is the rotation of the
+		// cookie the request presented
 		a := w.acctByPID(o.uidAfter())
+		if uid, ok := w.loginPut(o); ok && (st.RM || st.Kind == "oauth2_callback") {
+			a = w.acctByPID(uid)
+		} else if ck := o.presented("cookie"); ck != nil && ck.Known != nil && o.uidBefore() == "" {
+			a = ck.Known.Acct
+		}
 		kb.addSecret(&Secret{Kind: "rm", Acct: a, Browser: st.B, Value: v})
 	}
 	// new OAuth2 state in the session
